@@ -153,14 +153,99 @@ func ruleCoreIdentity(c *Ctx) []Obligation {
 			// inner loops over a list of cores that build a filtered list
 			found := 0
 			ast.Inspect(outer.Body, func(m ast.Node) bool {
-				inner, ok := m.(*ast.RangeStmt)
-				if !ok || inner == outer || inner.Value == nil {
+				// the iterated element: the range value variable, or LIST[i] with i the range key / the
+				// counter of a `for i := 0; i < len(LIST); i++` loop
+				var innerBody *ast.BlockStmt
+				var innerNode ast.Node
+				var isElem func(e ast.Expr) bool
+				switch inner := m.(type) {
+				case *ast.RangeStmt:
+					if inner == outer {
+						return true
+					}
+					lt := info.TypeOf(inner.X)
+					sl, isSl := lt.Underlying().(*types.Slice)
+					if !isSl || !types.Identical(sl.Elem(), coreT) {
+						return true
+					}
+					var yv, kv *types.Var
+					if inner.Value != nil {
+						yv, _ = info.Defs[identOf(inner.Value)].(*types.Var)
+					}
+					if inner.Key != nil {
+						kv, _ = info.Defs[identOf(inner.Key)].(*types.Var)
+					}
+					listTxt := exprStr(inner.X)
+					isElem = func(e ast.Expr) bool {
+						e = ast.Unparen(e)
+						if id, ok := e.(*ast.Ident); ok && yv != nil && info.Uses[id] == yv {
+							return true
+						}
+						if ix, ok := e.(*ast.IndexExpr); ok && kv != nil && exprStr(ix.X) == listTxt {
+							if id, ok := ast.Unparen(ix.Index).(*ast.Ident); ok && info.Uses[id] == kv {
+								return true
+							}
+						}
+						return false
+					}
+					innerBody, innerNode = inner.Body, inner
+				case *ast.ForStmt:
+					// for i := …; i < len(LIST); i++
+					cond, ok := inner.Cond.(*ast.BinaryExpr)
+					if !ok {
+						return true
+					}
+					call, ok := ast.Unparen(cond.Y).(*ast.CallExpr)
+					if !ok || len(call.Args) != 1 {
+						return true
+					}
+					if id, ok := call.Fun.(*ast.Ident); !ok || id.Name != "len" {
+						return true
+					}
+					lt := info.TypeOf(call.Args[0])
+					sl, isSl := lt.Underlying().(*types.Slice)
+					if !isSl || !types.Identical(sl.Elem(), coreT) {
+						return true
+					}
+					iv, _ := info.Uses[identOf(cond.X)].(*types.Var)
+					if iv == nil {
+						return true
+					}
+					listTxt := exprStr(call.Args[0])
+					isElem = func(e ast.Expr) bool {
+						if ix, ok := ast.Unparen(e).(*ast.IndexExpr); ok && exprStr(ix.X) == listTxt {
+							if id, ok := ast.Unparen(ix.Index).(*ast.Ident); ok && info.Uses[id] == iv {
+								return true
+							}
+						}
+						return false
+					}
+					innerBody, innerNode = inner.Body, inner
+				default:
 					return true
 				}
-				yv, _ := info.Defs[identOf(inner.Value)].(*types.Var)
-				if yv == nil || !types.Identical(yv.Type(), coreT) {
-					return true
+				// an element local: c := LIST[i]
+				elemLocals := map[types.Object]bool{}
+				for _, s := range innerBody.List {
+					if as, ok := s.(*ast.AssignStmt); ok && len(as.Lhs) == 1 && len(as.Rhs) == 1 && isElem(as.Rhs[0]) {
+						if id, ok := as.Lhs[0].(*ast.Ident); ok {
+							if o := info.Defs[id]; o != nil {
+								elemLocals[o] = true
+							}
+						}
+					}
 				}
+				baseElem := isElem
+				isElem = func(e ast.Expr) bool {
+					if id, ok := ast.Unparen(e).(*ast.Ident); ok && elemLocals[info.Uses[id]] {
+						return true
+					}
+					return baseElem(e)
+				}
+				inner := struct {
+					Body *ast.BlockStmt
+					pos  token.Pos
+				}{innerBody, innerNode.Pos()}
 				// filter condition: the if statement guarding continue / append
 				var conds []ast.Expr
 				for _, s := range inner.Body.List {
@@ -172,7 +257,7 @@ func ruleCoreIdentity(c *Ctx) []Obligation {
 					return true
 				}
 				found++
-				o := Obligation{Key: "runtime." + FuncName(fd) + "|finished core removed by identity", Pos: c.Pos(inner.Pos()), Nontrivial: true}
+				o := Obligation{Key: "runtime." + FuncName(fd) + "|finished core removed by identity", Pos: c.Pos(inner.pos), Nontrivial: true}
 				okID := false
 				var why []string
 				for _, cond := range conds {
@@ -181,15 +266,19 @@ func ruleCoreIdentity(c *Ctx) []Obligation {
 						why = append(why, "filter condition `"+exprStr(cond)+"` is not an (in)equality of core numbers")
 						continue
 					}
-					side := func(e ast.Expr, v *types.Var) bool {
+					numOf := func(e ast.Expr) ast.Expr {
 						s, ok := ast.Unparen(e).(*ast.SelectorExpr)
 						if !ok || info.Uses[s.Sel] != numField {
-							return false
+							return nil
 						}
-						id, ok := ast.Unparen(s.X).(*ast.Ident)
-						return ok && info.Uses[id] == v
+						return s.X
 					}
-					if (side(b.X, yv) && side(b.Y, xv)) || (side(b.X, xv) && side(b.Y, yv)) {
+					isSignalled := func(e ast.Expr) bool {
+						id, ok := ast.Unparen(e).(*ast.Ident)
+						return ok && info.Uses[id] == xv
+					}
+					l, r := numOf(b.X), numOf(b.Y)
+					if l != nil && r != nil && ((isElem(l) && isSignalled(r)) || (isSignalled(l) && isElem(r))) {
 						okID = true
 					} else {
 						why = append(why, "filter condition `"+exprStr(cond)+"` does not compare the number of the iterated core with the number of the core that signalled (positions are not stable: the list is replaced while the outer loop runs over the old one)")
